@@ -102,11 +102,11 @@ def ref_enc_msg(lay: dict, m: dict, vals: list, compress=None) -> bytes:
 # generators
 
 INT_EDGE = [0, 1, 2, 127, 128, 255, 256, 65535, 65536, (1 << 31) - 1, 1 << 31, (1 << 32) - 1, 1 << 32, (1 << 63), (1 << 64) - 1]
-STR_POOL = ['', 'a', 'test', 'Hello World', 'café', 'ü€\U0001d11e', '日本語', 'music\\album\\01 - song.mp3',
+STR_POOL = ['\ufeffbom first', '\ufeff', 'x\ufeffy', '', 'a', 'test', 'Hello World', 'café', 'ü€\U0001d11e', '日本語', 'music\\album\\01 - song.mp3',
             '@@abc\\dir', '\x00', '\x7f\u0080߿ࠀ￿\U00010000\U0010ffff', 'x' * 127, 'y' * 128, ' ', '™Œ']
 
 
-NONASCII_POOL = ['é', 'café', 'ü€\U0001d11e', '日本語', 'Motörhead\\Ace of Spades\\01 - Ünïcode.mp3', '™Œ', 'Ж', '中' * 43]
+NONASCII_POOL = ['\ufeffÜber', 'é', 'café', 'ü€\U0001d11e', '日本語', 'Motörhead\\Ace of Spades\\01 - Ünïcode.mp3', '™Œ', 'Ж', '中' * 43]
 
 
 def gen_value(rng, lay: dict, t, depth=0, edge=False, nonascii=False):
